@@ -197,6 +197,27 @@ def words_for(primary, tier, seed):
         for ext in (210, 595):
             for sr in range(16):
                 yield (31 << 26) | (3 << 21) | (sr << 16) | (ext << 1), 'sr'
+    # compares: every CR destination field (3 bits, the two bits below it zero) with distinct and equal source registers, register
+    # (cmp 0, cmpl 32) and immediate (cmpi 11, cmpli 10) forms; CR-field moves and FP compares likewise
+    if primary == 31:
+        for ext in (0, 32):
+            for bf in range(8):
+                for ra, rb in ((3, 4), (4, 3), (0, 31), (31, 0), (7, 7), (1, 2)):
+                    yield (31 << 26) | (bf << 23) | (ra << 16) | (rb << 11) | (ext << 1), 'cmp'
+    if primary in (10, 11):
+        for bf in range(8):
+            for ra in (0, 3, 31):
+                for imm in (0x18, 0xfff0, 0x7fff):
+                    yield (primary << 26) | (bf << 23) | (ra << 16) | imm, 'cmp'
+    if primary == 63:
+        for ext in (0, 32):
+            for bf in range(8):
+                for ra, rb in ((1, 2), (2, 1), (0, 31)):
+                    yield (63 << 26) | (bf << 23) | (ra << 16) | (rb << 11) | (ext << 1), 'cmp'
+    if primary == 19:
+        for bf in range(8):
+            for bfa in range(8):
+                yield (19 << 26) | (bf << 23) | (bfa << 18), 'cmp'
     # conditional branches: every BI (condition bit x CR field) for the BO classes with a distinct text form
     if primary in (16, 19):
         for bo in (0, 2, 4, 8, 10, 12, 16, 18, 20):
